@@ -464,7 +464,10 @@ def runScenario (x : Ext) (tdocs : List Tpls) (rules : List Rule) (events : List
   let c0 : Compiler := {}
   let rec loadT : List Tpls → Compiler → Except CompErr Compiler
     | [], c => .ok c
-    | t :: ts, c => match M.Compiler.loadTemplates c t with
+    | t :: ts, c =>
+      -- serde_yaml rejects a mapping with a repeated key before the document reaches the compiler
+      if (t.map Prod.fst).eraseDups.length != t.length then .error .serde
+      else match M.Compiler.loadTemplates c t with
       | .ok c' => loadT ts c'
       | .error e => .error e
   let rec loadR : List Rule → Compiler → Except CompErr Compiler
@@ -487,6 +490,58 @@ def runScenario (x : Ext) (tdocs : List Tpls) (rules : List Rule) (events : List
             let (e', out) := M.Engine.scan x e ev
             go evs e' (scanOutJson out :: acc)
         Json.mkObj [("scans", Json.arr (go events eng []).toArray)]
+
+def parseScenario (j : Json) : E (Ext × List Tpls × List Json × List Rule × List Event) := do
+    let t ← match jOpt j "ext" with
+      | none => pure ({} : Tables)
+      | some e => jTables e
+    let x : Ext :=
+      { fparse := fun s => (t.fp.lookup s).getD none
+        rxOk := fun p => match t.rx.lookup p with
+          | some (ok, _) => ok
+          | none => false
+        rxMatch := fun p h => match t.rx.lookup p with
+          | some (_, hs) => (hs.lookup h).getD false
+          | none => false }
+    let tdocs ← match jOpt j "templates" with
+      | none => pure []
+      | some a => do
+        let a ← a.getArr?
+        a.toList.mapM (fun d => do
+          let d ← d.getArr?
+          d.toList.mapM (fun e => do
+            let k ← (← e.getArrVal? 0).getStr?
+            let v ← (← e.getArrVal? 1).getStr?
+            pure (k.toList, v.toList)))
+    let rulesJ := (← (← j.getObjVal? "rules").getArr?).toList
+    let rules ← rulesJ.mapM jRule
+    let events ← (← (← j.getObjVal? "events").getArr?).toList.mapM jEvent
+    pure (x, tdocs, rulesJ, rules, events)
+
+/-- the rule texts after templating, as `Compiler::rules()` shows them -/
+def templatedRules (x : Ext) (tdocs : List Tpls) (rules : List Rule) : Json :=
+  let rec loadT : List Tpls → Compiler → Except CompErr Compiler
+    | [], c => .ok c
+    | t :: ts, c =>
+      -- serde_yaml rejects a mapping with a repeated key before the document reaches the compiler
+      if (t.map Prod.fst).eraseDups.length != t.length then .error .serde
+      else match M.Compiler.loadTemplates c t with
+      | .ok c' => loadT ts c'
+      | .error e => .error e
+  let rec loadR : List Rule → Compiler → Except CompErr Compiler
+    | [], c => .ok c
+    | r :: rs, c => match M.Compiler.load c r with
+      | .ok c' => loadR rs c'
+      | .error e => .error e
+  match loadT tdocs {} with
+  | .error e => Json.mkObj [("load", compErrJson e)]
+  | .ok c1 => match loadR rules c1 with
+    | .error e => Json.mkObj [("load", compErrJson e)]
+    | .ok c2 =>
+      let (c3, err) := M.Compiler.compile x c2
+      match err with
+      | some e => Json.mkObj [("compile", compErrJson e)]
+      | none => Json.arr (c3.rules.map ruleOutJson).toArray
 
 def handle (j : Json) : E Json := do
   let op ← j.getObjValAs? String "op"
@@ -740,31 +795,11 @@ def handle (j : Json) : E Json := do
       | some p, some q => Json.mkObj [("eq", Json.bool (M.XPath.eq p q)), ("hash_ok", Json.bool (!(M.XPath.eq p q) || p.hashKey == q.hashKey))]
       | _, _ => Json.null
     pure (Json.mkObj [("model", r)])
+  | "scenario_multi" =>
+    let (x, tdocs, _, rules, events) ← parseScenario j
+    pure (Json.mkObj [("model", Json.mkObj [("rules", templatedRules x tdocs rules), ("result", runScenario x tdocs rules events)])])
   | "scenario" =>
-    let t ← match jOpt j "ext" with
-      | none => pure ({} : Tables)
-      | some e => jTables e
-    let x : Ext :=
-      { fparse := fun s => (t.fp.lookup s).getD none
-        rxOk := fun p => match t.rx.lookup p with
-          | some (ok, _) => ok
-          | none => false
-        rxMatch := fun p h => match t.rx.lookup p with
-          | some (_, hs) => (hs.lookup h).getD false
-          | none => false }
-    let tdocs ← match jOpt j "templates" with
-      | none => pure []
-      | some a => do
-        let a ← a.getArr?
-        a.toList.mapM (fun d => do
-          let d ← d.getArr?
-          d.toList.mapM (fun e => do
-            let k ← (← e.getArrVal? 0).getStr?
-            let v ← (← e.getArrVal? 1).getStr?
-            pure (k.toList, v.toList)))
-    let rulesJ := (← (← j.getObjVal? "rules").getArr?).toList
-    let rules ← rulesJ.mapM jRule
-    let events ← (← (← j.getObjVal? "events").getArr?).toList.mapM jEvent
+    let (x, tdocs, rulesJ, rules, events) ← parseScenario j
     let srules ← rulesJ.mapM jSRule
     let model := runScenario x tdocs rules events
     if srules.all Option.isSome && !srules.isEmpty then
